@@ -424,7 +424,7 @@ MUTANTS = [
     Mut("insert-block-uses-loop-cs", _RW, "urwid.display._raw_display_base.Screen.draw_screen", "                    if insertcs is None:\n                        icss = escape.SI", "                    if cs is None:\n                        icss = escape.SI", "LEAK|display._raw_display_base.Screen.draw_screen"),
     Mut("insert-block-uses-loop-attr", _RW, "urwid.display._raw_display_base.Screen.draw_screen", "ias = attr_to_escape(inserta)", "ias = attr_to_escape(a)", "LEAK|display._raw_display_base.Screen.draw_screen"),
     Mut("last-row-remainder-wrong-attr", _RW, "urwid.display._raw_display_base.Screen._last_row", "new_row.append((y_attr, y_cs, nlast_text[:nlast_offs]))", "new_row.append((z_attr, z_cs, nlast_text[:nlast_offs]))", "TRIPLE|"),
-    Mut("show-cursor-unconditional", _RW, "urwid.display._raw_display_base.Screen.draw_screen", "        if canvas.cursor is not None:\n            x, y = canvas.cursor\n            output += [set_cursor_position(x, y), escape.SHOW_CURSOR]\n            self._cy = y", "        x, y = canvas.cursor or (0, 0)\n        output += [set_cursor_position(x, y), escape.SHOW_CURSOR]\n        self._cy = y", "PASS|display._raw_display_base.Screen.draw_screen"),
+    Mut("show-cursor-unconditional", _RW, "urwid.display._raw_display_base.Screen.draw_screen", "        if canvas.cursor is not None:\n            x, y = canvas.cursor\n            output += [set_cursor_position(x, y), escape.SHOW_CURSOR]\n            self._cy = y\n        else:\n            # without a cursor the terminal stays on the row painted last\n            self._cy = cy\n", "        x, y = canvas.cursor or (0, 0)\n        output += [set_cursor_position(x, y), escape.SHOW_CURSOR]\n        self._cy = y\n", "PASS|display._raw_display_base.Screen.draw_screen"),
     Mut("hide-cursor-dropped", _RW, "urwid.display._raw_display_base.Screen.draw_screen", "output: list[str] = [escape.HIDE_CURSOR, attr_to_escape(last_attributes)]", "output: list[str] = [attr_to_escape(last_attributes)]", "PASS|display._raw_display_base.Screen.draw_screen"),
     Mut("clear-keeps-screen-buf", _RW, "urwid.display._raw_display_base.Screen.clear", "        self.screen_buf = None\n", "", "INV|display._raw_display_base.Screen.clear"),
     Mut("props-change-without-clear", _RW, "urwid.display._raw_display_base.Screen.set_terminal_properties", "        self.clear()\n        self._pal_escape = {}", "        self._pal_escape = {}", "INV|display._raw_display_base.Screen.set_terminal_properties"),
